@@ -372,7 +372,7 @@ fn judge(exp: &Expected, obs: &Outcome, err: Option<&darling::Error>, panic_fire
         // no property depends on it is darling's business; nothing to compare in this run
         (Expected::Panic(_), _) | (Expected::NoPanic, _) => {}
         (Expected::Value(v), Outcome::Ok(o)) => {
-            if v != o {
+            if !opt_val_matches(v, o) {
                 out.push(fail("C02.R1v", format!("{}value differs: expected {:?}, got {:?}", tag, v, o)));
             }
         }
@@ -397,6 +397,27 @@ fn judge(exp: &Expected, obs: &Outcome, err: Option<&darling::Error>, panic_fire
             }
         }
         (_, Outcome::Panic(_)) | (_, Outcome::SimPanic(_)) => unreachable!("handled above"),
+    }
+}
+
+/// Structural equality in which `Val::Opaque` on the model's side stands for "not looked into".
+fn val_matches(m: &Val, o: &Val) -> bool {
+    match (m, o) {
+        (Val::Opaque, _) => true,
+        (Val::Some(a), Val::Some(b)) => val_matches(a, b),
+        (Val::Seq(a), Val::Seq(b)) => a.len() == b.len() && a.iter().zip(b).all(|(x, y)| val_matches(x, y)),
+        (Val::Struct(n, a), Val::Struct(k, b)) => n == k && a.len() == b.len() && a.iter().zip(b).all(|((fa, x), (fb, y))| fa == fb && val_matches(x, y)),
+        (Val::Variant(n, a), Val::Variant(k, b)) => n == k && val_matches(a, b),
+        (Val::Map(a), Val::Map(b)) => a.len() == b.len() && a.iter().zip(b).all(|((ka, x), (kb, y))| ka == kb && val_matches(x, y)),
+        _ => m == o,
+    }
+}
+
+fn opt_val_matches(m: &Option<Val>, o: &Option<Val>) -> bool {
+    match (m, o) {
+        (None, None) => true,
+        (Some(a), Some(b)) => val_matches(a, b),
+        _ => false,
     }
 }
 
